@@ -24,7 +24,7 @@ REACH = ['gambit.sigs.hdf5:HDF5Signatures._init_datasets', 'gambit.sigs.hdf5:HDF
          'gambit.sigs.hdf5:load_signatures_hdf5', 'gambit.sigs.hdf5:dump_signatures_hdf5', 'gambit.sigs.hdf5:HDF5Signatures.__init__',
          'gambit.sigs.hdf5:write_metadata', 'gambit.sigs.hdf5:read_metadata']
 
-STRS = ['', 'a', 'plain id', 'Ünïcödé', '日本語', '😀 emoji', 'comma,quote"\'', 'new\nline', 'tab\tcr\rx', ' lead/trail ', 'x' * 300, '‮RTL', 'null-free\x7f', '𝔘𝔫𝔦']
+STRS = ['', 'a', 'plain id', 'Ünïcödé', '日本語', '😀 emoji', 'comma,quote"\'', 'new\nline', 'tab\tcr\rx', ' lead/trail ', 'x' * 300, 'y' * 70000, '‮RTL', 'null-free\x7f', '𝔘𝔫𝔦']
 COMPRESSIONS = [(None, None)] + [('gzip', l) for l in range(10)] + [('gzip', None), ('lzf', None)]
 
 
